@@ -19,7 +19,7 @@ double verif_inst(std::vector<double>& v, std::vector<double>& w, double x, std:
   s += (double)VectorTools::containsAll(v, w); VectorTools::diff(v, w, r); VectorTools::append(v, w);
   int si = VectorTools::sum(vi) + VectorTools::prod(vi) + VectorTools::sumProd(vi, wi) + VectorTools::max(vi) + VectorTools::min(vi) + VectorTools::scalar<int, int>(vi, wi);
   std::vector<size_t> posi = VectorTools::whichAll(vi, xi); posi = VectorTools::whichMaxAll(vi); posi = VectorTools::whichMinAll(vi); si += VectorTools::min(vi) + (int)VectorTools::whichMin(vi);
-  ri = VectorTools::seq(xi, si, 1);
+  ri = VectorTools::seq(xi, si, 1); ri = VectorTools::rep(vi, posi.size()); ri = VectorTools::vectorIntersection(vi, wi); si += (int)VectorTools::containsAll(vi, wi) + (int)VectorTools::contains(vi, xi);
   ri = VectorTools::cumProd(vi); si += (int)VectorTools::whichMax(vi) + (int)VectorTools::which(vi, xi);
   return s + si + NumTools::logsum(x, s);
 }
@@ -31,7 +31,7 @@ TUS = {'vt': dict(src=INST, filter='bpp::VectorTools'),
 VD = 'std::vector<double>'
 VI = 'std::vector<int>'
 OPS = {'+': 'plus', '-': 'minus', '*': 'mul', '/': 'div'}
-free = {('abs', 1): 'verif_abs_i', ('exp', 1): 'verif_exp', ('log', 1): 'verif_log_ax', ('isinf', 1): 'verif_isinf', ('sort', 2): [('PValue', 'verif_sort_pvalue'), ('double', 'verif_sort_double')], ('append', 2): 'verif_append_double', ('contains', 2): 'VectorTools__contains',
+free = {('abs', 1): 'verif_abs_i', ('exp', 1): 'verif_exp', ('log', 1): 'verif_log_ax', ('isinf', 1): 'verif_isinf', ('sort', 2): [('PValue', 'verif_sort_pvalue'), ('double', 'verif_sort_double'), ('int', 'verif_sort_int')], ('append', 2): 'verif_append_double', ('contains', 2): [('std::vector<double>', 'VectorTools__contains'), ('std::vector<int>', 'VectorTools__contains_i')],
         ('max',): [('double (const std::vector<double> &)', 'VectorTools__max'), ('int (const std::vector<int> &)', 'VectorTools__max_i')],
         ('min',): [('double (const std::vector<double> &)', 'VectorTools__min'), ('int (const std::vector<int> &)', 'VectorTools__min_i')],
         ('whichMax',): [('(const std::vector<double> &)', 'VectorTools__whichMax'), ('(const std::vector<int> &)', 'VectorTools__whichMax_i')],
@@ -71,6 +71,11 @@ static inline double verif_log_ax(double x) { double r = verif_log(x); __CPROVER
   return r; }
 VEC_DECL(StatTools_PValue, Vec_StatTools_PValue)
 #ifdef VERIF_MODE_BOUNDED
+static inline void verif_sort_int(int *first, int *last) {   /* std::sort on vector<int>: insertion sort */
+  long n = last - first;
+  for (long i = 1; i < VEC_BCAP; ++i) if (i < n) { int x = first[i]; long j = i;
+    for (long k = 0; k < VEC_BCAP; ++k) { if (!(j > 0 && x < first[j - 1])) break; first[j] = first[j - 1]; --j; }
+    first[j] = x; } }
 _Bool StatTools_PValue__op_lt(StatTools_PValue *self, StatTools_PValue *pvalue);
 static inline void verif_sort_pvalue(StatTools_PValue *first, StatTools_PValue *last) {   /* std::sort with PValue_::operator< : insertion sort */
   long n = last - first;
@@ -222,7 +227,8 @@ FUNCS += [
 ]
 INT = [('sum', 'VectorTools__sum_i'), ('prod', 'VectorTools__prod_i'), ('cumProd', 'VectorTools__cumProd_i'), ('sumProd', 'VectorTools__sumProd_i'),
        ('max', 'VectorTools__max_i'), ('min', 'VectorTools__min_i'), ('whichMax', 'VectorTools__whichMax_i'), ('which', 'VectorTools__which_i'),
-       ('whichMin', 'VectorTools__whichMin_i'), ('whichAll', 'VectorTools__whichAll_i'), ('whichMaxAll', 'VectorTools__whichMaxAll_i'), ('whichMinAll', 'VectorTools__whichMinAll_i'), ('seq', 'VectorTools__seq_i')]
+       ('whichMin', 'VectorTools__whichMin_i'), ('whichAll', 'VectorTools__whichAll_i'), ('whichMaxAll', 'VectorTools__whichMaxAll_i'), ('whichMinAll', 'VectorTools__whichMinAll_i'), ('seq', 'VectorTools__seq_i'), ('rep', 'VectorTools__rep_i'), ('containsAll', 'VectorTools__containsAll_i'), ('contains', 'VectorTools__contains_i')]
+VT('vectorIntersection', 'VectorTools__vectorIntersection_i', ['int'], sig='(const std::vector<int> &, const std::vector<int> &)')
 for nm, cn in INT:
     VT(nm, cn, ['int'])
 VT('scalar', 'VectorTools__scalar_i', ['int', 'int'], sig='(const std::vector<int> &, const std::vector<int> &)')
@@ -231,7 +237,7 @@ FUNCS.append(dict(cname='op_mul_vv_i', qname='bpp::operator*', targs=['int'], si
 
 BH = r'''
 #define FOR(i, n) for (unsigned long i = 0; i < (unsigned long)(n); ++i)
-int in_a[N1 + 1], in_b[N2 + 1], in_x, in_f, in_t, in_by;
+int in_a[N1 + 1], in_b[N2 + 1], in_x, in_f, in_t, in_by; unsigned long in_n;
 static void mkv(Vec_int *v, int *src, unsigned long n) { v->d = (int*)verif_new_array(VEC_BCAP, sizeof(int)); v->n = n; FOR(i, n) { src[i] = nondet_int(); __CPROVER_assume(src[i] >= -DOM && src[i] <= DOM); v->d[i] = src[i]; } }
 void h(void) { Vec_int a, b; mkv(&a, in_a, N1); mkv(&b, in_b, N2); verif_exc = 0;
   /* definitions over integers, computed by straight-line loops */
@@ -274,6 +280,15 @@ void h(void) { Vec_int a, b; mkv(&a, in_a, N1); mkv(&b, in_b, N2); verif_exc = 0
     else { _Bool isel = 0; FOR(i, N1) { __CPROVER_assert(r <= in_a[i], "min bounds every element"); isel = isel || r == in_a[i]; } __CPROVER_assert(verif_exc == 0 && isel, "min is an element"); } }
   { verif_exc = 0; unsigned long r = VectorTools__whichMin_i(&a);
     if (N1 != 0) { __CPROVER_assert(verif_exc == 0 && r < N1, "whichMin is an index"); FOR(i, N1) { __CPROVER_assert(in_a[r] <= in_a[i], "whichMin points at a minimum"); if (i < r) __CPROVER_assert(in_a[i] > in_a[r], "whichMin is the first position of the minimum"); } } }
+  /* set-like helpers on the int instantiation */
+  { verif_exc = 0; unsigned long n = nondet_ulong(); __CPROVER_assume(n <= 2 && N1 * n <= VEC_BCAP); in_n = n; Vec_int r = VectorTools__rep_i(&a, n);
+    __CPROVER_assert(verif_exc == 0 && r.n == N1 * n, "rep has |v| * n elements"); FOR(i, VEC_BCAP) if (i < r.n) __CPROVER_assert(r.d[i] == in_a[i % (N1 ? N1 : 1)], "rep repeats the input cyclically"); }
+  { verif_exc = 0; Vec_int r = VectorTools__vectorIntersection_i(&a, &b); unsigned long c = 0;
+    FOR(i, N1) { _Bool inb = 0; FOR(j, N2) inb = inb || in_a[i] == in_b[j]; if (inb) { __CPROVER_assert(c < r.n && r.d[c] == in_a[i], "vectorIntersection keeps the elements of the first vector found in the second, in order"); c++; } }
+    __CPROVER_assert(verif_exc == 0 && r.n == c, "vectorIntersection keeps nothing else"); }
+  { verif_exc = 0; _Bool r = VectorTools__containsAll_i(&a, &b); _Bool all = 1;     /* sorts a and b: last use of both */
+    FOR(j, N2) { _Bool ina = 0; FOR(i, N1) ina = ina || in_a[i] == in_b[j]; all = all && ina; }
+    __CPROVER_assert(verif_exc == 0 && r == all, "containsAll <=> every element of the second vector occurs in the first"); }
   /* sequence generation: from (included) towards to by steps of size by > 0 */
   { verif_exc = 0; int f = nondet_int(), t = nondet_int(), by = nondet_int(); __CPROVER_assume(f >= -1 && f <= 1 && t >= -1 && t <= 1 && by >= 1 && by <= 2); in_f = f; in_t = t; in_by = by;
     Vec_int r = VectorTools__seq_i(f, t, by); unsigned long len = (unsigned long)((f < t ? t - f : f - t) / by) + 1;
@@ -303,7 +318,7 @@ def generate_jobs(unit, tier):
         for n2 in sorted({n1, (n1 + 1) % (nmax + 1)}):
             jobs.append(dict(id='b_values_n%d_m%d' % (n1, n2), kind='bounded', mode='bounded', entry='h', bodies=ints, harness=BH, unwind=nmax + 3, timeout=600,
                              defs='#define N1 %d\n#define N2 %d\n#define DOM 2\n#define VEC_BCAP %d\n' % (n1, n2, nmax + 1),
-                             bound='vector lengths %d and %d, integer entries in [-2, 2]' % (n1, n2), doc='sum, prod, cumProd, sumProd, scalar, + and * element-wise, max, min, whichMax, whichMin, whichMaxAll, whichMinAll, whichAll, seq (from, to in [-1,1], step 1 or 2) against their definitions'))
+                             bound='vector lengths %d and %d, integer entries in [-2, 2]' % (n1, n2), doc='sum, prod, cumProd, sumProd, scalar, + and * element-wise, max, min, whichMax, whichMin, whichMaxAll, whichMinAll, whichAll, seq (from, to in [-1,1], step 1 or 2), rep (n <= 2), vectorIntersection, containsAll against their definitions'))
         jobs.append(dict(id='b_fdr_n%d' % n1, kind='bounded', mode='bounded', entry='h', bodies=['StatTools_PValue__ctor_2', 'StatTools_PValue__op_lt', 'StatTools__computeFdr'],
                          harness=H_FDR, unwind=nmax + 3, timeout=600, defs='#define N1 %d\n#define VEC_BCAP %d\n' % (n1, nmax + 1),
                          bound='%d distinct p-values in [0,1] (symbolic doubles)' % n1, doc='false-discovery-rate adjustment against p*n/rank'))
@@ -316,4 +331,4 @@ TRUSTED = ['std::vector model of stubs/vec.h; exp/log as uninterpreted functions
 ASSUMPTIONS = ['vectors shorter than 65536 elements in the proofs (cap of the memory model; induction, no unwinding)', 'order-type postconditions assume the compared elements are not NaN',
                'operands of containsAll / diff / vectorIntersection are distinct objects; rep: |v| * n <= 65536']
 NOT_DECIDED = ['upper bounds max + log n of the log-domain reductions, shift-equivariance (not exact in floating point), entropy / mutual information, sd / cor accuracy, functions built on lambdas or std::accumulate (fill, logSumExp(v), sumExp(v), logMeanExp, cumSum, countValues, shannon*, mi*, breaks)',
-               'vectorUnion (is_fresh rejected in loop invariants), extract (quantified precondition on the positions), value results of containsAll / diff / vectorIntersection / rep (element contents after sort / push_back / resize are not tracked in the proofs)']
+               'vectorUnion (is_fresh rejected in loop invariants), extract (quantified precondition on the positions), value results of diff; value results of containsAll / vectorIntersection / rep beyond the bounded runs (element contents after sort / push_back / resize are not tracked in the proofs)']
